@@ -41,6 +41,9 @@ def work(tasks, idx):
             kw["origin"] = "example"
         if "X.uv-clear-required-up-waived" in xs:
             sim_fs = sim_fs + ("R.uv-clear",)
+        if "R.rpid-hash-of-lowercase" in sim_fs or "R.rpid-hash-of-idna-form" in sim_fs:
+            kw["rp_id"] = "B\u00fccher.Example"         # an expected RP ID for which those other strings exist
+            kw["origin"] = "https://b\u00fccher.example"
         if "X.alg-unregistered-not-allowed" in xs:
             if fmt not in ("none",):
                 continue
